@@ -86,7 +86,7 @@ def parse_quad(sql, dialect, max_errors):
             _verif.sink = sink
             try:
                 trees = sqlglot.parse(sql, read=dialect or None, error_level=getattr(ErrorLevel, lname), max_errors=max_errors)
-                r["out"] = _h(json.dumps([serde.dump(t) if t is not None else None for t in trees], default=str, sort_keys=True))
+                r["out"] = _h(json.dumps([serde.dump(t) if t is not None else None for t in trees], default=lambda o: type(o).__name__, sort_keys=True))
             except TokenError as e:
                 r["tokerr"] = True
                 r["exc"] = "TokenError"
